@@ -6,6 +6,7 @@ CLAIMED={
  'C01':('exploration','callback/store monitor over adversarial inbound histories on the real engine'),
  'C03':('exploration','reference replay computed from the bytes the engine itself saved (store wrapper) and the independent scanner; coverage/contiguity/body-identity oracle'),
  'C04':('exploration','recovery model built from the stub peer\'s own actions; ResendRequest rules + end-to-end delivery'),
+ 'C05':('exploration','real Initiator + real Acceptor on the simulated network (driver-pumped links, one delivery per step) and simulated disk; cuts with byte-granular loss, half-open links, refused reconnects, crash/restart on process-crash and power-loss images; end-to-end exactly-once/in-order oracle after a fault-free settle period'),
  'C06':('exploration','defects planted in flight by the stub peer in every logged-on state; non-delivery + reaction-for-one-of-the-defects oracle'),
  'C07':('exploration','continuity/reset oracle over reconnect histories for every reset-option combination, three stores'),
  'C08':('exploration','per-connection envelope monitor (wire recorded at write time, callbacks, close) under the adversarial workload with timers, cuts and Stop'),
